@@ -31,7 +31,7 @@ from traits.observation._observer_graph import ObserverGraph  # noqa: E402
 from traits.observation._trait_event_notifier import TraitEventNotifier  # noqa: E402
 from traits.observation._observer_change_notifier import ObserverChangeNotifier  # noqa: E402
 
-EXN = ["ValueError", "NotifierNotFound", "RuntimeError"]
+EXN = ["ValueError", "NotifierNotFound", "RuntimeError", "IndexError", "KeyError"]
 
 # field numbering shared with tools/props/c09.py and coq/C09/Model.v (F_ITEMS = 0, F_TA = 1)
 FNUM = {"value": 2, "f": 3, "g": 4, "kids": 5, "m": 6, "s": 7, "w": 8, "nonexist": 9, "value2": 10,
@@ -67,7 +67,9 @@ def disp1(handler, event):
     handler(event)
 
 
-DISPATCHERS = [observe_api.dispatch_same, disp1]
+from traits.trait_notifiers import ui_dispatch  # noqa: E402
+
+DISPATCHERS = [observe_api.dispatch_same, disp1, ui_dispatch]      # 0 'same', 1 custom, 2 'ui' (main thread)
 
 
 class Owner:
@@ -208,17 +210,18 @@ def run_case(case):
     init = snapshot()
     prev = init
     counter = [1000]
+    exc = None
     hist = []
     for op in case["ops"]:
         del calls[:]
         k = op[0]
-        out, dead, graphs = "Ok", None, None
+        out, dead, graphs, mut = "Ok", None, None, None
         try:
             if k in ("Reg", "Unreg"):
                 _, root, hid, dsp, gtrees, text = op
                 if text is not None:
                     graphs = [graph_json(g) for g in _compile_expression(text)]
-                    pool[root].observe(handlers[hid], text, remove=(k == "Unreg"), dispatch="same")
+                    pool[root].observe(handlers[hid], text, remove=(k == "Unreg"), dispatch={0: "same", 2: "ui"}[dsp])
                 else:
                     observe_api.apply_observers(
                         pool[root], graphs=[build_graph(t) for t in gtrees], handler=handlers[hid],
@@ -226,6 +229,50 @@ def run_case(case):
             elif k == "Change":
                 counter[0] += 1
                 setattr(pool[op[1]], FNAME[op[2]], counter[0])
+            elif k == "SetLink":
+                # ["SetLink", i, "f"|"g", j or None]
+                setattr(pool[op[1]], op[2], None if op[3] is None else pool[op[3]])
+            elif k == "Mut":
+                # in-place container mutation ["Mut", i, "kids"|"m"|"s", what, args...]
+                o_ = pool[op[1]]
+                c_ = getattr(o_, op[2])
+                what, a = op[3], op[4:]
+                removed, added, fired = [], [], True
+                exc = None
+                try:
+                    if what == "append":
+                        added = [a[0]]
+                        c_.append(pool[a[0]])
+                    elif what == "pop":
+                        removed = [idx_of[id(c_[a[0]])]]
+                        c_.pop(a[0])
+                    elif what == "setitem":
+                        removed, added = [idx_of[id(c_[a[0]])]], [a[1]]
+                        c_[a[0]] = pool[a[1]]
+                    elif what == "dset":
+                        removed, added = ([idx_of[id(c_[a[0]])]] if a[0] in c_ else []), [a[1]]
+                        c_[a[0]] = pool[a[1]]
+                    elif what == "ddel":
+                        removed = [idx_of[id(c_[a[0]])]]
+                        del c_[a[0]]
+                    elif what == "sadd":
+                        fired = pool[a[0]] not in c_
+                        added = [a[0]] if fired else []
+                        c_.add(pool[a[0]])
+                    elif what == "sdiscard":
+                        fired = pool[a[0]] in c_
+                        removed = [a[0]] if fired else []
+                        c_.discard(pool[a[0]])
+                    else:
+                        raise RuntimeError(what)
+                except Exception as e_:  # noqa
+                    exc = e_
+                after = list(c_.values()) if isinstance(c_, dict) else list(c_)
+                mut = {"items": [idx_of[id(v)] for v in after], "removed": removed, "added": added, "fired": fired}
+                o_ = c_ = after = None
+                if exc is not None:
+                    e_ = None
+                    raise exc
             elif k == "CollectOwner":
                 wr = weakref.ref(owners[op[1]])
                 owners[op[1]] = None
@@ -244,8 +291,10 @@ def run_case(case):
                 raise ValueError(k)
         except Exception as e:  # noqa
             out = dlib.exn_name(e, EXN)
+        exc = None
         cur = snapshot()
-        hist.append({"out": out, "calls": list(calls), "snap": delta(prev, cur), "dead": dead, "graphs": graphs})
+        hist.append({"out": out, "calls": list(calls), "snap": delta(prev, cur), "dead": dead, "graphs": graphs,
+                     "mut": mut})
         prev = cur
     # registrations must not keep the observed objects alive (handlers are still held here)
     wrs = [weakref.ref(x) for x in pool if x is not None]
